@@ -29,6 +29,8 @@ type c08Case struct {
 	Phase1 []c08Op     `json:"phase1"` // before flush / eviction / clean restart
 	Phase2 []c08Op     `json:"phase2"` // after the restart, ended by a crash - or by
 	Reopen bool        `json:"reopen"` // the session switching to another database and back
+	// Age > 0: the database starts with the row-id and LSN counters of a database long in use (props.Ages)
+	Age int `json:"age,omitempty"`
 }
 
 const c08Table = "vals"
@@ -311,7 +313,7 @@ func c08BulkRow(cols []model.Col, rid int64) model.Stmt {
 }
 
 func c08Gen(rt *rapid.T) c08Case {
-	c := c08Case{}
+	c := c08Case{Age: DrawAge(rt)}
 	ncols := rapid.IntRange(1, 8).Draw(rt, "ncols")
 	c.Cols = []model.Col{{Name: "rid", Type: model.TBigInt}}
 	for i := 1; i < ncols; i++ {
@@ -347,6 +349,9 @@ func c08Run(c c08Case, st *vlib.Stats) string {
 	}
 	if err != nil {
 		return "setup failed: " + err.Error()
+	}
+	if err := AgeDatabase(eng, c.Age); err != nil {
+		return "advancing the counters failed: " + err.Error()
 	}
 	defer func() {
 		if eng != nil {
